@@ -328,3 +328,40 @@ package consensus
 //@   ensures header.Height % params.TermDuration == 0 ==> content(result.Header.DeputyRoot) == content(ba.canLoader.LoadTopCandidates(header.ParentHash).MerkleRootSha())
 //@   ensures header.Height % params.TermDuration != 0 ==> len(result.Header.DeputyRoot) == 0
 //@   nopanic
+
+// ---------------------------------------------------------------------------------------------------------------------
+// C19 (the part contracts can carry): SignBlock is reached with the chain lock (InsertBlock/MineBlock -> TryConfirm, Seal) and
+// without it (the batchConfirmStable goroutine), so its memo and the confirmer's last-signed record have locks of their own;
+// every access happens with the lock held (guarded_by obligations at each load and store), no lock is taken twice or left
+// held, and the signature handed out is the node key's signature over the hash that was asked for -- the memo is consulted
+// only under the lock and holds a signature of the hash stored with it (wfSigCache).
+//@ guarded_by var sigCache : sigCacheLock
+//@ guarded_by Confirmer.lastSig : Confirmer.lastSigLock
+//@ pred wfSigCache() = sigCache.Hash == common.Hash{} || (len(sigCache.Sig) == 65 && content(sigCache.Sig) == crypto.sigOf(content(sigCache.Hash), deputynode.GetSelfNodeKey()))
+
+//@ func SignBlock
+//@   props C19
+//@   requires !held(sigCacheLock) && wfSigCache()
+//@   modifies sigCache.Hash, sigCache.Sig
+//@   ensures !held(sigCacheLock) && wfSigCache()
+//@   ensures result1 == nil && blockHash != common.Hash{} ==> len(result0) == 65 && content(result0) == crypto.sigOf(content(blockHash), deputynode.GetSelfNodeKey())
+
+//@ func (*Confirmer).SetLastSig
+//@   props C19
+//@   requires c != nil && block != nil && block.Header != nil && !held(c.lastSigLock)
+//@   modifies c.lastSig
+//@   ensures !held(c.lastSigLock)
+//@   ensures c.lastSig.Height >= old(c.lastSig.Height) && c.lastSig.Height >= block.Height()
+
+//@ func (*Confirmer).needConfirm
+//@   props C19
+//@   requires c != nil && block != nil && block.Header != nil && !held(c.lastSigLock)
+//@   requires deputynode.wfManager(c.dm) && deputynode.cfgOK() && len(block.Confirms) < 1<<30 && c.dm.DeputyCount < 65536
+//@   ensures !held(c.lastSigLock)
+
+//@ func (*Confirmer).confirmBlock
+//@   props C19
+//@   requires c != nil && block != nil && block.Header != nil && !held(c.lastSigLock) && !held(sigCacheLock) && wfSigCache()
+//@   modifies sigCache.Hash, sigCache.Sig, c.lastSig
+//@   ensures !held(c.lastSigLock) && !held(sigCacheLock) && wfSigCache()
+//@   ensures result1 == nil && block.Hash() != common.Hash{} ==> content(result0) == crypto.sigOf(content(block.Hash()), deputynode.GetSelfNodeKey())
